@@ -1039,7 +1039,21 @@ func (vm *VirtualMachine) reloadCode(main *compiler.Code) *code {
 	if !ok {
 		panic("main code not loaded")
 	}
-	delete(vm.loadedCode, main)
+	// The reloaded main code gets a new globals array. The functions of the
+	// main code that were loaded by earlier runs share the old array: forget
+	// them as well, so that they are loaded again with the new array when they
+	// are called next. Otherwise they would keep reading and writing the
+	// globals as they were when the function was first loaded. Ensure we
+	// don't modify the map during a clone.
+	func() {
+		vm.cloneMutex.Lock()
+		defer vm.cloneMutex.Unlock()
+		for cc := range vm.loadedCode {
+			if cc.Root() == main {
+				delete(vm.loadedCode, cc)
+			}
+		}
+	}()
 	newWrappedMain := vm.loadCode(main)
 	copy(newWrappedMain.Globals, oldWrappedMain.Globals)
 	return newWrappedMain
